@@ -52,17 +52,79 @@ impl Property for C13 {
         }
     }
     fn rule(&self) -> &'static str {
-        "generated crate trees (depth <= 3: name.rs / name/mod.rs, #[path] into the same and other directories, inline nesting, cfg_if! branches (also with an inline module that declares an out-of-line one), cfg_match! arms, the fallback to the declaring file's own directory, cfg_attr(path), a file reached twice (under one spelling of its path or under two, `x.rs` and `updir/../x.rs`), decoy files nobody declares, #[rustfmt::skip] on the declaration, inner skip, ignore entries (also one matching the root itself), @generated with format_generated_files=false, #[rustfmt::skip] on an inline module that declares an out-of-line one (present or missing), skip_children, root given as a relative or an absolute path), every file unformatted; the real binary runs in files mode on a copy (one case in four instead feeds the root on standard input: nothing may be written, the root's formatted text is printed); oracle: a reference model built from the Rust Reference's module file rules says which files are reachable and not excluded; the set of files whose bytes changed must equal that set, every changed file must hold exactly its own formatted text, no file may appear twice in the report of a preceding read-only `--emit json` run (formatted once), exit status 0; non-trivial = the tree has a decoy or an exclusion and at least 3 files; distinct by case content"
+        "generated crate trees (depth <= 3: name.rs / name/mod.rs, #[path] into the same and other directories, inline nesting, cfg_if! branches (also with an inline module that declares an out-of-line one), cfg_match! arms, the fallback to the declaring file's own directory, cfg_attr(path), a file reached twice (under one spelling of its path or under two, `x.rs` and `updir/../x.rs`), decoy files nobody declares, #[rustfmt::skip] on the declaration, inner skip, ignore entries (also one matching the root itself), @generated with format_generated_files=false, #[rustfmt::skip] on an inline module that declares an out-of-line one (present or missing), skip_children, root given as a relative or an absolute path), every file unformatted; the real binary runs in files mode on a copy (one case in four instead feeds the root on standard input: nothing may be written, the root's formatted text is printed); one case in twelve declares a module that is ambiguous (name.rs and name/mod.rs both present) or missing, in the root or one level down, with same-named files in neighbouring directories: rustfmt must exit with 1 and change nothing; oracle: a reference model built from the Rust Reference's module file rules says which files are reachable and not excluded; the set of files whose bytes changed must equal that set, every changed file must hold exactly its own formatted text, no file may appear twice in the report of a preceding read-only `--emit json` run (formatted once), exit status 0; non-trivial = the tree has a decoy or an exclusion and at least 3 files; distinct by case content"
     }
     fn assumptions(&self) -> Vec<&'static str> {
         vec!["skipped / inner-skipped / ignored / @generated modules are generated as leaves (what happens to their children is not claimed)", "a file's expected text is what the same bytes give on standard input under the default configuration"]
     }
     fn generate(&self, c: &mut Choices<'_>, _g: &GenCtx) -> Value {
+        if c.chance(1, 12) {
+            // "an ambiguous or missing module is an error rather than a guess": the declaring
+            // file is the root or a name.rs / mod.rs module one level down; files the resolver
+            // might be tempted by lie in the neighbouring directories
+            let level = c.below(3); // 0: declared in the root, 1: in a.rs, 2: in a/mod.rs
+            let ambiguous = c.flip();
+            let mut files: Vec<(String, String)> = vec![];
+            let body = |n: &str| format!("pub fn  in_{n} ( ) {{  }}\n");
+            let (decl_file, module_dir) = match level {
+                0 => ("main.rs".to_string(), "".to_string()),
+                1 => ("a.rs".to_string(), "a/".to_string()),
+                _ => ("a/mod.rs".to_string(), "a/".to_string()),
+            };
+            if level > 0 {
+                files.push(("main.rs".into(), format!("mod a;\n{}", body("root"))));
+            }
+            files.push((decl_file.clone(), format!("mod b;\n{}", body("decl"))));
+            if ambiguous {
+                files.push((format!("{module_dir}b.rs"), body("b_file")));
+                files.push((format!("{module_dir}b/mod.rs"), body("b_dir")));
+            }
+            // tempting files elsewhere
+            for (i, p) in ["b.rs", "other/b.rs", "a/b/c/b.rs", "b/b.rs"].iter().enumerate() {
+                if c.chance(1, 2) && !files.iter().any(|f| f.0 == *p) && !(module_dir.is_empty() && (*p == "b.rs"))
+                    // (a missing nested module of a name.rs file falls back to that file's own
+                    // directory, as documented: b.rs there would resolve it)
+                    && !(level == 1 && !ambiguous && *p == "b.rs")
+                {
+                    files.push((p.to_string(), body(&format!("tempting{i}"))));
+                }
+            }
+            let files: Vec<Value> = files.into_iter().map(|(p, c)| json!({"path": p, "content": c})).collect();
+            return json!({"kind": "unresolvable", "files": files, "ambiguous": ambiguous});
+        }
         let t = gen_tree(c, &TreeSpace::default());
         let abs = c.flip();
         json!({"tree": t, "abs": abs, "stdin": c.chance(1, 4)})
     }
     fn run(&self, case: &Value, r: &RunCtx) -> Outcome {
+        if case["kind"].as_str() == Some("unresolvable") {
+            let dir = r.tmp.join(format!("c13u-{}", r.case_no));
+            let _ = std::fs::remove_dir_all(&dir);
+            for f in case["files"].as_array().into_iter().flatten() {
+                let p = dir.join(f["path"].as_str().unwrap_or("x.rs"));
+                let _ = std::fs::create_dir_all(p.parent().unwrap());
+                let _ = std::fs::write(&p, f["content"].as_str().unwrap_or(""));
+            }
+            let before = snapshot(&dir);
+            let Some((code, _out, err)) = run_rustfmt(r, &dir, &["main.rs".to_string()], None) else {
+                let _ = std::fs::remove_dir_all(&dir);
+                return Outcome::skip("cannot-run-rustfmt");
+            };
+            let after = snapshot(&dir);
+            let _ = std::fs::remove_dir_all(&dir);
+            let what = if case["ambiguous"].as_bool() == Some(true) { "ambiguous" } else { "missing" };
+            let mut o = Outcome::pass();
+            o.labels.push(format!("unresolvable:{what}"));
+            o.nontrivial = true;
+            if code != Some(1) {
+                return Outcome::fail(format!("unresolvable-module-accepted:{what}"), format!("`mod b;` is {what}, yet rustfmt exits with {code:?}\nstderr: {err}\nfiles {:?}", before.keys().collect::<Vec<_>>())).nontrivial(true);
+            }
+            if after != before {
+                let changed: Vec<&String> = before.keys().filter(|k| after.get(*k) != before.get(*k)).collect();
+                return Outcome::fail(format!("unresolvable-module-wrote:{what}"), format!("`mod b;` is {what} (exit {code:?}), yet {changed:?} changed\nfiles {:?}", before.keys().collect::<Vec<_>>())).nontrivial(true);
+            }
+            return o;
+        }
         let tree: Tree = match serde_json::from_value(case["tree"].clone()) {
             Ok(t) => t,
             Err(_) => return Outcome::skip("bad-case"),
